@@ -1102,9 +1102,21 @@ def _plain_lit(v: float) -> list:
     return ['num', s]
 
 
-def expr_candidates(e: list) -> Iterator[list]:
+def py_eval_text(text: str) -> Any:
+    """Python's reading of an expression text ('^' as '**'); used only to
+    *name* a failure (is it what the parenthesis-free text does?), never as
+    an oracle."""
+    env = {'pi': math.pi, 'sin': math.sin, 'cos': math.cos, 'tan': math.tan, 'exp': math.exp, 'ln': math.log, 'sqrt': math.sqrt}
+    return eval(text.replace('^', '**'), {'__builtins__': {}}, env)
+
+
+def expr_candidates(e: list, env: dict[str, float] | None = None) -> Iterator[list]:
     """Simpler variants of an expression, biggest simplification first."""
     subs = list(_sub_exprs(e))
+    if env:
+        for path, s in subs:
+            if s[0] == 'id' and s[1] in env:
+                yield _replace(e, path, _plain_lit(float(env[s[1]])))
     # whole or sub expression -> plain literal of its value
     for path, s in subs:
         if s[0] == 'num' and 'e' not in s[1].lower() and not s[1].startswith('.') and not s[1].endswith('.'):
@@ -1115,6 +1127,11 @@ def expr_candidates(e: list) -> Iterator[list]:
             except Domain:
                 continue
             yield _replace(e, path, _plain_lit(v))
+    # closed sub-expression -> the constant 0.5
+    for path, s in subs:
+        if _closed(s) and s != ['num', '0.5'] and not (s[0] == 'num' and len(subs) == 1 and s[1] in ('0.5',)):
+            if s[0] in ('num', 'neg', 'pi') or len(path) == 0:
+                yield _replace(e, path, ['num', '0.5'])
     # structural: node -> child
     for path, s in subs:
         t = s[0]
@@ -1383,6 +1400,19 @@ def program_candidates(prog: dict[str, Any]) -> Iterator[dict[str, Any]]:
                 else:
                     st['q'] = [['q', offs[a[0]] + a[1]] for a in qs]
             yield p
+    # a library gate with several parameters -> rz(<one of its expressions>)
+    if prog['include']:
+        def multi_sites(p: dict[str, Any]) -> list[dict[str, Any]]:
+            out = [st for d in p['defs'] for st in d['body']] + list(p['main'])
+            return [st for st in out if st['k'] == 'app' and st['g'] in QELIB1 and st['g'] not in defnames and len(st['ex']) > 1]
+        for si, st in enumerate(multi_sites(prog)):
+            for ei in range(len(st['ex'])):
+                p = copy.deepcopy(prog)
+                st2 = multi_sites(p)[si]
+                st2['g'] = 'rz'
+                st2['ex'] = [st2['ex'][ei]]
+                st2['q'] = st2['q'][:1]
+                yield p
     # drop a formal qubit that no body statement uses
     for di, d in enumerate(prog['defs']):
         if len(d['qubits']) < 2:
@@ -1453,6 +1483,13 @@ def inline_call(prog: dict[str, Any], di: int | None, si: int) -> dict[str, Any]
     return p
 
 
+_EXPR_FEATS = {'paren', 'usub', 'pow', 'add', 'sub', 'mul', 'div', 'pi'}
+
+
+def _expr_family(f: set[str]) -> set[str]:
+    return {x for x in f if x in _EXPR_FEATS or x.startswith('fn:') or (x.startswith('lit:') and x != 'lit:int')}
+
+
 def shrink(
     prog: dict[str, Any], still_fails: Callable[[dict[str, Any]], bool],
     budget: int = 400,
@@ -1463,10 +1500,15 @@ def shrink(
     progress = True
     while progress:
         progress = False
+        cur_f = _expr_family(program_features(cur))
         for cand in program_candidates(cur):
             if evals >= budget:
                 return cur, False, evals
             if not validate_program(cand):
+                continue
+            # shrinking is monotone: a step may not introduce a construct
+            # (it could bring in a different defect)
+            if not _expr_family(program_features(cand)) <= cur_f:
                 continue
             evals += 1
             if still_fails(cand):
